@@ -1,16 +1,78 @@
 package main
 
 import (
-	"errors"
+	"encoding/json"
+	"fmt"
+	"os"
+	"path/filepath"
 	"time"
 )
 
-func makeOverlay(tmp string) (string, error) { return "", errors.New("sched engine not built yet") }
-
-func schedCheck(id, tier string, spec propSpec, bin string, master uint64, workers, maxRuns int, budget time.Duration, tmp string, start time.Time, buildS float64) int {
-	return exitUnwell
+// schedOps: the sched engine's plans are opaque to the runner (its package only compiles under
+// the overlay); run i's plan is emitted by a worker, and shrinking works on the "choices" array.
+func schedOps(bin, id string, master uint64, tmp string) planOps {
+	return planOps{
+		gen: func(i int) ([]byte, uint64, error) {
+			out := filepath.Join(tmp, fmt.Sprintf("emit-%d.json", i))
+			defer os.Remove(out)
+			spec := map[string]interface{}{"property": id, "master": master, "emit": i + 1, "out": out}
+			if err := runWorkerProc(bin, spec, "", time.Now().Add(60*time.Second)); err != nil {
+				return nil, 0, err
+			}
+			b, err := os.ReadFile(out)
+			if err != nil {
+				return nil, 0, err
+			}
+			var p struct {
+				Seed uint64 `json:"seed"`
+			}
+			json.Unmarshal(b, &p)
+			return b, p.Seed, nil
+		},
+		shrink: func(plan []byte, fails func([]byte) bool) []byte {
+			var m map[string]json.RawMessage
+			if json.Unmarshal(plan, &m) != nil {
+				return plan
+			}
+			var choices []int
+			if json.Unmarshal(m["choices"], &choices) != nil {
+				return plan
+			}
+			render := func(cs []int) []byte {
+				m2 := map[string]json.RawMessage{}
+				for k, v := range m {
+					m2[k] = v
+				}
+				m2["choices"], _ = json.Marshal(cs)
+				b, _ := json.MarshalIndent(m2, "", " ")
+				return b
+			}
+			// shorter schedules first (the drain phase finishes what is cut), then prefer "first runnable"
+			for len(choices) > 0 {
+				cand := choices[:len(choices)/2]
+				if fails(render(cand)) {
+					choices = cand
+					continue
+				}
+				if len(choices) > 1 {
+					cand = choices[:len(choices)-1]
+					if fails(render(cand)) {
+						choices = cand
+						continue
+					}
+				}
+				break
+			}
+			for i := range choices {
+				if choices[i] != 0 {
+					cand := append([]int{}, choices...)
+					cand[i] = 0
+					if fails(render(cand)) {
+						choices = cand
+					}
+				}
+			}
+			return render(choices)
+		},
+	}
 }
-
-func schedReplay(bin string, rf *ReplayFile, tmp string) int { return exitUnwell }
-
-func cmdDeterminism(ids []string) int { return exitUnwell }
